@@ -66,7 +66,7 @@ def mk(conc, prem):
 def select(name, tier):
     """stratified slice of the plan: every k-th argument within each (fragment, number of premises, uses a binary predicate, set of constants) stratum,
     so that every shape family is represented whatever the size of the others"""
-    k = (24 if name in sweep.SLOW else 8) if tier == 'quick' else 2
+    k = (24 if name in sweep.SLOW else 8) if tier == 'quick' else (9 if name in sweep.SLOW else 3)
     seen = {}
     out = []
     for frag, a in plan(name, tier):
@@ -158,7 +158,7 @@ def run(ctx):
     cov = dict(
         evaluations=sum(r['execs'] for r in res),
         distinct_nontrivial=sum(r['refl'] + r['mono'] + r['ren'] for r in res),
-        rule=('base arguments: every ' + ('8th' if ctx.quick else '2nd') + ' argument of each (fragment, premise count) stratum of the C01 plan (PROP, MODAL, FO, FO-modal) per logic, every 2nd-3rd of the binary-predicate shapes; reflexivity: the conclusion inserted at every '
+        rule=('base arguments: every ' + ('8th' if ctx.quick else '3rd') + ' (slow logics: 24th / 9th) argument of each (fragment, premise count, binary predicate, set of constants) stratum of the C01 plan (PROP, MODAL, FO, FO-modal) per logic, every 2nd-3rd of the binary-predicate shapes; reflexivity: the conclusion inserted at every '
               'premise position and each premise as conclusion; monotonicity: each valid base x extra premises (fresh letters, constants, predicates, world-creating and '
               'witness-creating sentences) at every position; renaming: 12 injective renamings of letters / constants / predicates / variables incl. subscript shifts; '
               'non-trivial = related pairs compared'),
